@@ -43,6 +43,7 @@ func Harness_C07_DepositNeverLostNeverStalls() {
 	pair0, pairErr0 := k.DenomPairs.Get(ctx, D)
 	// an arbitrary bystander account/denom for the frame condition
 	xs, dx := verifSymStr("acctX"), verifSymStr("denomX")
+	verifAssume(sdk.ValidateDenom(dx) == nil) // only valid denoms can be held (the bank panics on others)
 	x, xOK := k.addr(xs)
 	verifAssume(xOK)
 	balX0, supX0 := k.bal(ctx, x, dx), k.sup(ctx, dx)
